@@ -42,9 +42,15 @@ func TestVerifColours(t *testing.T) {
 		"#0x1234", "#１２３４５６", "rgb(1,2,3)", "#12_456", "#1.3456", "#+1+2+3", "#-1-2-3", "# 1 2 3"}
 	accepted := 0
 	for _, m := range malformed {
-		if code, err := hexToAnsi(m); err == nil {
+		m := m
+		/* a crash on a malformed string is no better than accepting it */
+		panicked, _ := verifkit.Try(func() {
+			if _, err := hexToAnsi(m); err == nil {
+				accepted++
+			}
+		})
+		if panicked {
 			accepted++
-			_ = code
 		}
 	}
 	out.Emit(verifkit.M{"ev": "colours", "checked": checked, "mismatches": mismatches, "malformed_tried": len(malformed), "accepted_malformed": accepted,
